@@ -99,7 +99,9 @@ def undiscard(t):
 
 def probes(chain):
     """reference paths available at the innermost struct, with the kind of value they yield"""
-    out = [(["y"], "int")]
+    # same scope; and downward into an earlier nested sibling (what a later member sees is that struct's parse / build result),
+    # also through a member whose name starts with an underscore
+    out = [(["y"], "int"), (["hdr", "p"], "int"), (["hdr", "_n"], "int")]
     # scopes enclosing the probe struct, innermost first
     scopes = [(k, lvl) for lvl, k in reversed(list(enumerate(chain))) if k in S_KINDS]
     ups = []
@@ -143,6 +145,8 @@ def probe_struct(path, kind, role):
         m = ["If", P, BYTE]
     else:
         raise ValueError(role)
+    if path[0] == "hdr":
+        return ["Struct", [["y", BYTE], ["hdr", ["Struct", [["_n", BYTE], ["p", BYTE]]]], ["m", m], ["z", BYTE]]]
     return ["Struct", [["y", BYTE], ["m", m], ["z", BYTE]]]
 
 
